@@ -68,6 +68,37 @@ class _Top:
 TOP = _Top()
 
 
+class Sym(_Top):
+    """an unknown value with an identity: the value of a named argument, or the result of a call the evaluation does not
+    enter.  Value-preserving conversions keep the identity (the widths passed through are recorded), every other
+    operation yields a plain unknown.  Lets a rule see that THE argument (not just something unknown) reaches a sink."""
+    def __init__(self, name, bits=None, trail=()):
+        self.name, self.bits, self.trail = name, bits, tuple(trail)
+
+    def cast(self, bits, signed):
+        return Sym(self.name, self.bits, self.trail + ((bits, signed),))
+
+    def intact(self):
+        """no conversion on the way was narrower than the value's own width"""
+        return all(b is None or self.bits is None or b >= self.bits for b, _s in self.trail)
+
+    def __repr__(self):
+        return "Sym(%s)" % self.name
+
+    def __deepcopy__(self, memo):
+        return self
+
+    def __eq__(self, o):
+        return isinstance(o, Sym) and o.name == self.name
+
+    def __hash__(self):
+        return hash(("Sym", self.name))
+
+
+def unk(v):
+    return isinstance(v, _Top)
+
+
 class StopPath(Exception):
     def __init__(self, result=None):
         Exception.__init__(self)
@@ -103,7 +134,7 @@ def mkstring(s):
 
 
 def wrap(v, bits, signed):
-    if v is TOP or not isinstance(v, int) or not bits:
+    if unk(v) or not isinstance(v, int) or not bits:
         return v
     v &= (1 << bits) - 1
     if signed and v >= 1 << (bits - 1):
@@ -112,7 +143,7 @@ def wrap(v, bits, signed):
 
 
 def truth(v):
-    if v is TOP:
+    if unk(v):
         raise Stuck("truth value of an unknown")
     if isinstance(v, Ptr):
         return True
@@ -197,21 +228,27 @@ class Machine:
             return {}
         return None            # uninitialised scalar
 
+    def fresh(self, name):
+        self.nstub = getattr(self, "nstub", 0) + 1
+        return Sym("ret:%s#%d" % (name, self.nstub))
+
     # ---- calls --------------------------------------------------------------------------
     def call(self, name, args, depth=0):
         if name in self.effects:
             self.log.append((name, list(args)))
             r = self.effects[name]
+            if r == "fresh":
+                return self.fresh(name)
             return r(self, args) if callable(r) else r
         if name in self.externs:
             return self.externs[name](self, args)
         if name in _CTYPE or name in ("tolower", "toupper", "strlen", "__builtin_strlen", "strnlen", "BSD_strnlen", "strncmp",
                                       "strncasecmp", "OUR_strncasecmp", "memcmp", "strcmp", "strcasecmp"):
-            if any(a is TOP for a in args):
+            if any(unk(a) for a in args):
                 return TOP
         if name in ("memcpy", "memmove", "__builtin_memcpy", "__builtin_memmove", "memset", "__builtin_memset") and \
-                any(a is TOP for a in args):
-            if args[0] is TOP:
+                any(unk(a) for a in args):
+            if unk(args[0]):
                 return TOP                      # writes into the caller's memory
             raise Stuck("%s with unknown operands into a known object" % name)
         b = self._builtin(name, args)
@@ -229,7 +266,8 @@ class Machine:
                             a.store(TOP)
                         except Stuck:
                             pass
-            return TOP
+            self.nstub = getattr(self, "nstub", 0) + 1
+            return Sym("ret:%s#%d" % (name, self.nstub))
         if f is None:
             raise Stuck("call of %s, which has no body here" % name)
         if depth >= self.max_depth:
@@ -321,8 +359,8 @@ class Machine:
             if a is None:
                 continue
             ty = p["type"]
-            if a is TOP:
-                fr.vars[p["name"]] = [TOP]
+            if unk(a):
+                fr.vars[p["name"]] = [a.cast(ty.get("bits"), ty.get("signed")) if isinstance(a, Sym) and ty.get("tk") in ("int", "enum", "bool") else a]
                 continue
             if ty.get("tk") in ("int", "bool", "enum") and isinstance(a, int):
                 a = int(bool(a)) if ty.get("tk") == "bool" else wrap(a, ty.get("bits"), ty.get("signed"))
@@ -336,13 +374,14 @@ class Frame:
         self.vars = {}          # name -> box: [value] for scalars/structs, the list itself for arrays
         self.cache = {}
         self.decided = {}       # condition node id -> polarity chosen at a fork on an unknown value
+        self.plog = []          # calls logged on THIS path (outermost activation; copied at forks)
 
     def clone(self):
         memo = {}
         for obj in self.m._globals.values():
             memo[id(obj)] = obj
         q = Frame(self.m, self.f, self.depth)
-        q.vars, q.cache, q.decided = copy.deepcopy((self.vars, self.cache, self.decided), memo)
+        q.vars, q.cache, q.decided, q.plog = copy.deepcopy((self.vars, self.cache, self.decided, self.plog), memo)
         return q
 
     def observe(self, kind, node, operands):
@@ -354,7 +393,7 @@ class Frame:
         v = self.value_of(x)
         if isinstance(v, Ptr) and x.get("lv"):
             v = v.load()
-        if v is TOP:
+        if unk(v):
             for i in (x.id, x.strip().id, x.strip_all_casts().id):
                 if i in self.decided:
                     return self.decided[i]
@@ -414,7 +453,12 @@ class Frame:
         if k in ("ImplicitCastExpr", "CStyleCastExpr"):
             v = val(0)
             ck = n.get("ck")
-            if v is TOP:
+            if isinstance(v, Sym) and ck in ("IntegralCast", "NoOp", "IntegralToBoolean") or \
+                    (isinstance(v, Sym) and ck is None and n.get("tk") in ("int", "enum")):
+                return v.cast(n.get("bits"), n.get("signed")) if ck != "NoOp" else v
+            if isinstance(v, Sym) and ck in ("BitCast",):
+                return v
+            if unk(v):
                 return TOP
             if ck == "LValueToRValue":
                 if not isinstance(v, Ptr):
@@ -457,12 +501,12 @@ class Frame:
             return v
         if k == "MemberExpr":
             b = val(0)
-            if b is TOP:
+            if unk(b):
                 return TOP
             if not isinstance(b, Ptr):
                 raise Stuck("member access through a non-pointer")
             obj = b.load()
-            if obj is TOP:
+            if unk(obj):
                 return TOP
             if obj is None and not n.get("arrow"):
                 obj = {}
@@ -474,7 +518,7 @@ class Frame:
             return Ptr(obj, n["member"])
         if k == "ArraySubscriptExpr":
             a, i = val(0), val(1)
-            if a is TOP or i is TOP:
+            if unk(a) or unk(i):
                 return TOP
             if isinstance(i, Ptr):
                 a, i = i, a
@@ -485,26 +529,26 @@ class Frame:
             op = n["op"]
             if op in ("&", "*"):
                 v = val(0)
-                if v is TOP or isinstance(v, Ptr):
+                if unk(v) or isinstance(v, Ptr):
                     return v
                 raise Stuck("%s on a non-lvalue / non-pointer" % op)
             if op in ("++", "--"):
                 lv = val(0)
-                if lv is TOP:
+                if unk(lv):
                     return TOP
                 if not isinstance(lv, Ptr):
                     raise Stuck("++ on a non-lvalue")
                 old = lv.load()
                 if old is None:
                     raise Stuck("++ of an uninitialised object")
-                if old is TOP:
+                if unk(old):
                     return TOP
                 d = 1 if op == "++" else -1
                 new = old.add(d) if isinstance(old, Ptr) else wrap(old + d, n.get("bits"), n.get("signed"))
                 lv.store(new)
                 return old if n.get("postfix") else new
             v = val(0)
-            if v is TOP:
+            if unk(v):
                 return TOP
             if op == "!":
                 return int(not truth(v))
@@ -529,7 +573,7 @@ class Frame:
                 return val(1)
             if op == "=":
                 lv, v = val(0), val(1)
-                if lv is TOP:
+                if unk(lv):
                     self.observe("store-unknown", n, (lv, v))
                     return v
                 if not isinstance(lv, Ptr):
@@ -544,7 +588,7 @@ class Frame:
             return self.arith(op, a, b, n)
         if k == "CompoundAssignOperator":
             lv, b = val(0), val(1)
-            if lv is TOP:
+            if unk(lv):
                 return TOP
             if not isinstance(lv, Ptr):
                 raise Stuck("compound assignment to a non-lvalue")
@@ -570,13 +614,17 @@ class Frame:
                 cal = self.value_of(n.child(0))
                 if isinstance(cal, tuple) and cal[0] == "fn":
                     name = cal[1]
-                elif cal is TOP:
+                elif unk(cal):
                     self.observe("call-unknown", n, args)
                     return TOP
                 else:
                     raise Stuck("indirect call")
             self.observe("call", n, args)
-            return m.call(name, args, self.depth)
+            n0 = len(m.log)
+            r = m.call(name, args, self.depth)
+            if self.depth == 0:
+                self.plog += m.log[n0:]
+            return r
         if k == "InitListExpr":
             vals = [self.value_of(x) for x in n.ch]
             if n.get("tk") == "record":
@@ -587,7 +635,7 @@ class Frame:
         raise Stuck("cannot evaluate %s" % k)
 
     def arith(self, op, a, b, n):
-        if a is TOP or b is TOP:
+        if unk(a) or unk(b):
             return TOP
         if isinstance(a, Ptr) or isinstance(b, Ptr):
             if op == "+":
@@ -682,7 +730,7 @@ class Frame:
                     v = self.value_of(f.nodes[b.term["cond"]]) if b.term and "cond" in b.term else None
                     if isinstance(v, Ptr):
                         v = v.load()
-                    if v is TOP:
+                    if unk(v):
                         return self.fork(b, [(s_, None) for s_ in succs if s_ is not None], None)
                     nxt = dflt = ext = None
                     for i, s_ in enumerate(succs):
@@ -704,7 +752,7 @@ class Frame:
                     v = self.value_of(cn)
                     if isinstance(v, Ptr) and cn.get("lv"):
                         v = v.load()
-                    if v is TOP:
+                    if unk(v):
                         t_ = self.cond_truth(cn)
                         if t_ is None:
                             return self.fork(b, [(succs[0], True), (succs[1], False)], cn)
